@@ -36,6 +36,7 @@ func (c06) Rule() string {
 func (c06) Plan(tier string) []core.Segment {
 	return []core.Segment{
 		{Gen: "model", Profile: "full", Count: scale(tier, 600_000, 20_000_000), Desc: "abstract documents, all serializer choices"},
+		{Gen: "model", Profile: "deep", Count: scale(tier, 60_000, 2_000_000), Desc: "larger abstract documents (up to 160 nodes, 12 top-level blocks, containers nested 6 deep)", Batch: 2000},
 		{Gen: "escapeall", Count: scale(tier, 200_000, 10_000_000)},
 		{Gen: "codeverbatim", Count: scale(tier, 100_000, 5_000_000)},
 	}
@@ -49,8 +50,12 @@ func (c06) NoMinimise() bool          { return true }
 // case's (seed, index) to obtain the expectation.
 func init() {
 	gen.Register("model", func(r *core.Rand, index uint64, profile string) ([]byte, string) {
-		prof := model.Profile{Canonical: profile == "fmt-canonical"}
-		if profile == "fmt-canonical" {
+		prof := model.Profile{Canonical: strings.HasPrefix(profile, "fmt-canonical")}
+		if strings.HasSuffix(profile, "deep") {
+			// larger documents with deeper container nesting
+			prof.MaxNodes, prof.Depth, prof.TopBlocks = 160, 6, 12
+		}
+		if prof.Canonical {
 			prof.No = map[string]bool{}
 			for _, n := range strings.Split(os.Getenv("VERIF_MODEL_NO"), ",") {
 				if n != "" {
